@@ -97,6 +97,7 @@ func runHistory(c *Ctx, d int64, ops []rOp, tag string) {
 	acceptedAt := map[string]int64{} // key -> logical ct (for the direct oracle)
 	okOracle := true
 	detail := ""
+	boundary := false
 	for i, o := range ops {
 		v := -1
 		p, _ := guard(func() { v = r.apply(o) })
@@ -108,6 +109,18 @@ func runHistory(c *Ctx, d int64, ops []rOp, tag string) {
 		}
 		out = append(out, jv.L(jv.I(int64(v)), jv.I(int64(r.c.VerifSize()))))
 		jops = append(jops, o.jv())
+		if o.Kind == 1 {
+			// the clean-up reads the real clock: the real time this history has been running (measured here, after the
+			// call: an upper bound) decides the fate of an entry whose logical age is within it of the skew; such a
+			// history is not compared with the model (which evaluates the logical instant); the direct oracle below
+			// still applies
+			el := int64(time.Since(r.base)/time.Microsecond) + 1000
+			for _, ct := range acceptedAt {
+				if age := r.T - ct; age <= d && age+el > d {
+					boundary = true
+				}
+			}
+		}
 		if o.Kind == 0 {
 			key := joinSlash(o.CName) + "|" + strconv.FormatInt(o.CT, 10) + "|" + fmt.Sprint(o.SName)
 			if v == 2 {
@@ -125,7 +138,11 @@ func runHistory(c *Ctx, d int64, ops []rOp, tag string) {
 			}
 		}
 	}
-	c.Case("replay_run", jv.L(jv.I(d), jv.L(jops...)), jv.Ok(out...))
+	if boundary {
+		c.Count("history:dropped-boundary")
+	} else {
+		c.Case("replay_run", jv.L(jv.I(d), jv.L(jops...)), jv.Ok(out...))
+	}
 	c.Check(okOracle, "an authenticator is accepted at most once while acceptable; replays only of accepted ones", "history:"+tag, detail, map[string]interface{}{"d": d, "ops": fmt.Sprint(ops)})
 }
 
@@ -457,6 +474,47 @@ func c02(c *Ctx) {
 	}
 	c.Hist["stress-trials"] = trials
 	c.Check(bad == 0, "16 parallel presentations of one authenticator: exactly one accepted", "stress", fmt.Sprintf("%d of %d trials accepted it more than once (or never)", bad, trials), nil)
+	// ---- end to end through VerifyAPREQ with the real skew check and the process-wide cache: an authenticator is
+	// refused as a replay while it is acceptable and refused for skew afterwards - also in the moments after its
+	// record has been cleaned out (client time a few hundred milliseconds beyond the skew) ----
+	{
+		svc := newTestService(c, []string{"HTTP", "host.test.gokrb5"})
+		d := 2 * time.Second
+		st := service.NewSettings(svc.kt, service.MaxClockSkew(d), service.DecodePAC(false))
+		for _, et := range []int32{18, 23} {
+			r := baseRecipe(c, svc, et)
+			r.ctime = time.Now().UTC().Truncate(time.Microsecond)
+			m := mint(c, r)
+			present := func() (bool, error) {
+				req := m.req
+				var ok bool
+				var err error
+				guard(func() { ok, _, err = service.VerifyAPREQ(&req, st) })
+				return ok, err
+			}
+			ok1, e1 := present()
+			ok2, _ := present()
+			c.Check(ok1 && !ok2, "a fresh authenticator is accepted once and refused as a replay at once", "e2e:first-presentations", fmt.Sprint(ok1, e1, ok2), map[string]interface{}{"etype": et})
+			accepted := 0
+			if ok1 {
+				accepted++
+			}
+			if ok2 {
+				accepted++
+			}
+			for _, extra := range []time.Duration{300 * time.Millisecond, 700 * time.Millisecond} {
+				if w := time.Until(r.ctime.Add(d + extra)); w > 0 {
+					time.Sleep(w)
+				}
+				service.GetReplayCache(d).ClearOldEntries(d)
+				if ok, _ := present(); ok {
+					accepted++
+				}
+			}
+			c.Check(accepted <= 1, "the same authenticator is never accepted twice, also just after its record was cleaned out", "e2e:accepted-again-after-cleanup", fmt.Sprintf("accepted %d times", accepted), map[string]interface{}{"etype": et})
+			c.Count("e2e:skew-edge")
+		}
+	}
 }
 
 var lastRes []int
